@@ -55,6 +55,7 @@ type ClassSpec struct {
 	Path     Path
 	Other    Path // second path of a property comparison: classes count value PAIRS
 	Polarity string
+	Via      Path // the atom sits under nested/atLeast/atMost over this path: classes look at the reached nodes
 }
 
 var perValueKinds = map[string]bool{"minLength": true, "maxLength": true, "exactLength": true, "pattern": true, "in": true,
@@ -67,49 +68,55 @@ func ClassOf(p Program) *ClassSpec {
 		return nil
 	}
 	var found []ClassSpec
-	var walk func(f Formula, neg bool, quantified bool)
-	walk = func(f Formula, neg bool, q bool) {
+	var walk func(f Formula, neg bool, via []Path)
+	walk = func(f Formula, neg bool, via []Path) {
 		switch x := f.(type) {
 		case Atom:
-			if perValueKinds[x.Kind] && !q {
+			if perValueKinds[x.Kind] {
 				pol := "pos"
 				if neg {
 					pol = "neg"
 				}
-				found = append(found, ClassSpec{x.Kind, x.Path, x.Other, pol})
-			} else if perValueKinds[x.Kind] {
-				found = append(found, ClassSpec{"quantified", nil, nil, ""})
+				switch len(via) {
+				case 0:
+					found = append(found, ClassSpec{x.Kind, x.Path, x.Other, pol, nil})
+				case 1:
+					found = append(found, ClassSpec{x.Kind, x.Path, x.Other, pol, via[0]})
+				default:
+					found = append(found, ClassSpec{"deeply-quantified", nil, nil, "", nil})
+				}
 			}
 		case Not:
-			walk(x.F, !neg, q)
+			walk(x.F, !neg, via)
 		case And:
 			for _, k := range x.Fs {
-				walk(k, neg, q)
+				walk(k, neg, via)
 			}
 		case Or:
 			for _, k := range x.Fs {
-				walk(k, neg, q)
+				walk(k, neg, via)
 			}
 		case If:
-			walk(x.C, !neg, q)
-			walk(x.T, neg, q)
+			walk(x.C, !neg, via)
+			walk(x.T, neg, via)
 			if x.E != nil {
-				walk(x.E, neg, q)
+				walk(x.E, neg, via)
 			}
 		case Nested:
-			walk(x.F, neg, true)
+			// the generator emits the inner formula as written (the quantifier itself carries the outer negation)
+			walk(x.F, false, append(append([]Path{}, via...), x.Path))
 		case Quant:
-			walk(x.F, neg, true)
+			walk(x.F, false, append(append([]Path{}, via...), x.Path))
 		}
 	}
-	walk(p.Validations[0].F, false, false)
+	walk(p.Validations[0].F, false, nil)
 	if len(found) == 0 || found[0].Path == nil {
 		return nil
 	}
 	// several occurrences of one and the same atom (e.g. `if c then A else not A`) share a class
 	spec := found[0]
 	for _, f := range found[1:] {
-		if f.Path == nil || f.Kind != spec.Kind || PathString(f.Path) != PathString(spec.Path) || (f.Other == nil) != (spec.Other == nil) || (f.Other != nil && PathString(f.Other) != PathString(spec.Other)) {
+		if f.Path == nil || f.Kind != spec.Kind || (f.Via == nil) != (spec.Via == nil) || PathString(f.Path) != PathString(spec.Path) || (f.Other == nil) != (spec.Other == nil) || (f.Other != nil && PathString(f.Other) != PathString(spec.Other)) {
 			return nil
 		}
 		if f.Polarity == "neg" {
@@ -122,11 +129,29 @@ func ClassOf(p Program) *ClassSpec {
 var vClasses = []string{"0", "1", "2+"}
 
 func (cs *ClassSpec) signature(vclass string) string {
+	if cs.Via != nil {
+		return fmt.Sprintf("quantified:%s:%s:|V|=%s", cs.Kind, cs.Polarity, vclass)
+	}
 	return fmt.Sprintf("%s:%s:|V|=%s", cs.Kind, cs.Polarity, vclass)
 }
 
 // classTerms: for node i, the guard of each value-count class.
 func (cs *ClassSpec) classTerms(r *Ref, i int) map[string]*smt.Term {
+	if cs.Via != nil {
+		// some reached node has no value / two or more values; otherwise every reached node has exactly one
+		inner := *cs
+		inner.Via = nil
+		zero, many := smt.False, smt.False
+		for j, reach := range r.DenNodes(cs.Via, i) {
+			if reach.IsFalse() {
+				continue
+			}
+			ct := inner.classTerms(r, j)
+			zero = smt.Or(zero, smt.And(reach, ct["0"]))
+			many = smt.Or(many, smt.And(reach, ct["2+"]))
+		}
+		return map[string]*smt.Term{"0": zero, "2+": smt.And(many, smt.Not(zero)), "1": smt.And(smt.Not(zero), smt.Not(many))}
+	}
 	n := countItems(r.DenValues(cs.Path, i))
 	if cs.Other != nil {
 		m := countItems(r.DenValues(cs.Other, i))
@@ -745,4 +770,124 @@ func RealTriples(report string) ([]string, bool, error) {
 	}
 	sort.Strings(out)
 	return dedupe(out), conforms, nil
+}
+
+// FindModelMismatch (debugging aid): enumerates graphs on which regosym's prediction differs
+// from the reference and reports the first one where the real implementation disagrees with regosym.
+func (c *Checker) FindModelMismatch(p Program, sc Scope, code string, rounds int) string {
+	_, msg := c.Differential(p, sc, code, rounds, true)
+	return msg
+}
+
+// Differential validates regosym itself: it enumerates graphs of the scope (all of them, or
+// only those on which the prediction differs from the reference), validates each through the real
+// entry point and compares the real results with regosym's prediction. It returns the number of
+// graphs compared and a message describing the first disagreement ("" if none).
+func (c *Checker) Differential(p Program, sc Scope, code string, rounds int, onlyDisagreements bool) (int, string) {
+	n, msg := c.differential(p, sc, code, rounds, onlyDisagreements)
+	if strings.HasPrefix(msg, "no mismatch") {
+		msg = ""
+	}
+	return n, msg
+}
+
+func (c *Checker) differential(p Program, sc Scope, code string, rounds int, onlyDisagreements bool) (int, string) {
+	_, mod, err := CompileModule(code)
+	if err != nil {
+		return 0, err.Error()
+	}
+	g := NewGraph(sc, "g")
+	ev := NewEvaluator(mod, g.Input)
+	rep := EvalReport(ev, g)
+	ref := &Ref{G: g}
+	profile := p.ProfileYAML()
+	goal := smt.False
+	type ob struct {
+		key      string
+		reported *smt.Term
+	}
+	var obs []ob
+	for _, v := range p.Validations {
+		for i := 0; i < g.N; i++ {
+			k := rkey(v.Level, v.Name, i)
+			reported, ok := rep.ByKey[k]
+			if !ok {
+				reported = smt.False
+			}
+			holds, spec := ref.Holds(v.F, i)
+			expected := smt.And(ref.Target(i, v.Class), smt.Not(holds))
+			obs = append(obs, ob{k, reported})
+			goal = smt.Or(goal, smt.And(spec, smt.Not(smt.Eq(reported, expected))))
+		}
+	}
+	side := append([]*smt.Term{}, g.Side...)
+	if !onlyDisagreements {
+		goal = smt.True
+		// spread the samples: vary which nodes exist
+		goal = smt.Or(goal, smt.True)
+	}
+	rng := uint64(88172645463325252)
+	next := func() uint64 {
+		rng ^= rng << 13
+		rng ^= rng >> 7
+		rng ^= rng << 17
+		return rng
+	}
+	for r := 0; r < rounds; r++ {
+		cur := side
+		if !onlyDisagreements {
+			// a pseudo-random partial assignment makes the sampled graphs spread over the scope
+			cur = append([]*smt.Term{}, side...)
+			for i := 0; i < g.N; i++ {
+				if next()%4 != 0 {
+					cur = append(cur, smt.Eq(g.Exists[i], smt.Bool(next()%4 != 0)))
+				}
+				for c := range g.Classes {
+					if next()%2 == 0 {
+						cur = append(cur, smt.Eq(g.HasClass[i][c], smt.Bool(next()%2 == 0)))
+					}
+				}
+				for pi := range g.Preds {
+					if next()%2 == 0 {
+						cur = append(cur, smt.Eq(g.Sel[i][pi], smt.BV(next()%uint64(len(g.Subsets)), 8)))
+					}
+				}
+			}
+		}
+		res, m := c.solve(cur, goal, g.Vars)
+		if res != smt.Sat {
+			if !onlyDisagreements {
+				continue
+			}
+			return r, fmt.Sprintf("no mismatch in %d graphs", r)
+		}
+		data, _ := g.Concrete(m)
+		var predicted []string
+		for _, o := range obs {
+			if evalBool(o.reported, m) {
+				predicted = append(predicted, o.key)
+			}
+		}
+		sort.Strings(predicted)
+		outs, err := c.Drv.Validate([]ValIn{{Profile: profile, Data: data}})
+		if err != nil || outs[0].Error != "" {
+			return r, fmt.Sprintf("native failure: %v %s\n%s", err, outs[0].Error, data)
+		}
+		actual, _, _ := realResults(outs[0].Report, g)
+		if strings.Join(actual, ",") != strings.Join(predicted, ",") {
+			return r, fmt.Sprintf("MISMATCH predicted=%v actual=%v\n%s", predicted, actual, data)
+		}
+		// block this assignment
+		block := smt.False
+		for _, v := range g.Vars {
+			val := m[v.Name]
+			if v.Width == 0 {
+				block = smt.Or(block, smt.Not(smt.Eq(v, smt.Bool(val != 0))))
+			} else {
+				block = smt.Or(block, smt.Not(smt.Eq(v, smt.BV(val, v.Width))))
+			}
+		}
+		side = append(side, block)
+	}
+	return rounds, fmt.Sprintf("no mismatch in %d graphs", rounds)
 }
